@@ -292,6 +292,7 @@ func (c15) Run(ctx *core.RunCtx) {
 		}
 	}
 	// no single party holds the secret (modulo any prime) when more than one is needed
+	leaked := false
 	if t > 1 {
 		ctx.Count("oracle.no-single-share-is-the-secret", 1)
 		for _, p := range r.parties {
@@ -305,9 +306,10 @@ func (c15) Run(ctx *core.RunCtx) {
 						break
 					}
 				}
-				if same {
+				if same && !leaked {
+					// (a listed finding does not end the run: the reconstruction below is checked all the same)
+					leaked = true
 					ctx.Fail("secrecy", "threshold-share|equals-secret-modulo-a-prime", "with t=%d of N=%d, the threshold share of the party with point %d alone is the ideal secret key modulo the prime %d (the point is a multiple of it): fewer than t parties reconstruct", t, N, uint64(p.point), moduli[i])
-					return
 				}
 			}
 		}
